@@ -8,31 +8,11 @@
 (* UseMutex = FALSE is the broken variant used by the self-test: TLC then   *)
 (* finds the lost update (two players "seated" on one seat).                *)
 (***************************************************************************)
-EXTENDS SeatProps
-CONSTANTS Procs, MaxSeats, UseMutex
-VARIABLES seat, pc, mutex, res, pre, Targets   \* Targets : Procs -> the seat each goroutine asks for
-vars == <<seat, pc, mutex, res, pre, Targets>>
+EXTENDS SeatProps, SeatJoinProto
+\* the protocol itself (variables seat, pc, mutex, res, pre, Targets; Init, Lock, Check, Commit, Unlock, Next, Spec) is
+\* SeatJoinProto.tla - the very module whose invariants SeatJoinProof.tla proves with TLAPS for all constants
 
-Init == /\ seat \in [0..(MaxSeats - 1) -> {NULL, 99}]      \* some seats already taken by player 99
-        /\ pre = seat /\ Targets \in [Procs -> 0..(MaxSeats - 1)]
-        /\ pc = [p \in Procs |-> "start"] /\ mutex = NULL /\ res = [p \in Procs |-> "-"]
-Lock(p) == /\ pc[p] = "start" /\ (UseMutex => mutex = NULL)
-           /\ mutex' = (IF UseMutex THEN p ELSE mutex)
-           /\ pc' = [pc EXCEPT ![p] = "check"] /\ UNCHANGED <<seat, res, pre, Targets>>
-Check(p) == /\ pc[p] = "check"
-            /\ IF seat[Targets[p]] # NULL
-               THEN pc' = [pc EXCEPT ![p] = "unlock"] /\ res' = [res EXCEPT ![p] = "ErrNotAvailable"]
-               ELSE pc' = [pc EXCEPT ![p] = "commit"] /\ res' = res      \* <- the gate of the verif hook sits here
-            /\ UNCHANGED <<seat, mutex, pre, Targets>>
-Commit(p) == /\ pc[p] = "commit"
-             /\ seat' = [seat EXCEPT ![Targets[p]] = p] /\ res' = [res EXCEPT ![p] = ""]
-             /\ pc' = [pc EXCEPT ![p] = "unlock"] /\ UNCHANGED <<mutex, pre, Targets>>
-Unlock(p) == /\ pc[p] = "unlock" /\ pc' = [pc EXCEPT ![p] = "done"]
-             /\ mutex' = (IF UseMutex THEN NULL ELSE mutex) /\ UNCHANGED <<seat, res, pre, Targets>>
-Next == \E p \in Procs : Lock(p) \/ Check(p) \/ Commit(p) \/ Unlock(p)
-Spec == Init /\ [][Next]_vars
-
-AsMap(f) == [max |-> MaxSeats, seat |-> [s \in 0..(MaxSeats - 1) |-> [player |-> f[s], active |-> TRUE, reserved |-> f[s] # NULL /\ f[s] # 99]],
+AsMap(f) == [max |-> MaxSeats, seat |-> [s \in 0..(MaxSeats - 1) |-> [player |-> f[s], active |-> TRUE, reserved |-> f[s] # NULL /\ f[s] # Other]],
              dealer |-> NULL, sb |-> NULL, bb |-> NULL, crashed |-> FALSE]
 ProcSeq == CHOOSE q \in [1..Cardinality(Procs) -> Procs] : \A a, b \in 1..Cardinality(Procs) : a # b => q[a] # q[b]
 Calls == [k \in 1..Cardinality(Procs) |-> LET p == ProcSeq[k] IN [seat |-> Targets[p], p |-> p, got |-> IF res[p] = "" THEN Targets[p] ELSE -1, res |-> res[p]]]
